@@ -36,3 +36,47 @@ Definition ex_gnu : list Z :=
 Definition ex_sysv : list Z :=
   encode_layout (spec_Elf_Hash true) [VZ 2; VZ 5; VL [1; 3]; VL [0; 2; 0; 4; 0]] ++ [7; 7].
 Definition ex_hash_f (img : list Z) : elf := mkElf img true true (mkEhdr 0 62 0 0 0 0 0 0 0) [] [] [].
+
+(* a second image, with a RELA table of two entries behind the string table *)
+Definition ex2_dyn : list dent :=
+  [(DT_NEEDED, 1); (DT_STRTAB, 0x1000 + 272); (DT_RELA, 0x1000 + 282); (DT_RELASZ, 48); (DT_RELAENT, 24); (DT_NULL, 0)].
+Definition ex2_rela : list Z :=
+  encode_layout (spec_Elf_Rela true true) [VZ 0x2000; VZ 0x100000007; VZ (-8)] ++
+  encode_layout (spec_Elf_Rela true true) [VZ 0x2008; VZ 8; VZ 0x1234].
+Definition ex2_ehdr (shoff shnum : Z) : list Z :=
+  encode_layout (spec_Elf_Ehdr true true)
+    [VB [127; 69; 76; 70]; VZ 2; VZ 1; VZ 1; VZ 0; VZ 0; VB [0;0;0;0;0;0;0]; VZ 3; VZ 62; VZ 1; VZ 0;
+     VZ 64; VZ shoff; VZ 0; VZ 64; VZ 56; VZ 2; VZ 64; VZ shnum; VZ 0].
+Definition ex2_phdrs : list Z :=
+  encode_layout (spec_Elf_Phdr true true) [VZ 1; VZ 5; VZ 0; VZ 0x1000; VZ 0x1000; VZ 522; VZ 522; VZ 4096] ++
+  encode_layout (spec_Elf_Phdr true true) [VZ 2; VZ 6; VZ 176; VZ (0x1000 + 176); VZ (0x1000 + 176); VZ 96; VZ 96; VZ 8].
+Definition ex2_shdrs : list Z :=
+  encode_layout (spec_Elf_Shdr true true) [VZ 0; VZ 0; VZ 0; VZ 0; VZ 0; VZ 0; VZ 0; VZ 0; VZ 0; VZ 0] ++
+  encode_layout (spec_Elf_Shdr true true) [VZ 1; VZ 6; VZ 3; VZ (0x1000 + 176); VZ 176; VZ 96; VZ 2; VZ 0; VZ 8; VZ 16] ++
+  encode_layout (spec_Elf_Shdr true true) [VZ 10; VZ 3; VZ 2; VZ (0x1000 + 272); VZ 272; VZ 10; VZ 0; VZ 0; VZ 1; VZ 0].
+Definition ex2_body := ex2_phdrs ++ encode_dyns true true ex2_dyn ++ ex_strtab ++ ex2_rela ++ ex2_shdrs.
+Definition ex2_img := ex2_ehdr 330 3 ++ ex2_body.
+Definition ex2_img' := ex2_ehdr 0 0 ++ ex2_body.
+
+(* a third image, with a two-entry .dynsym and a SysV hash table *)
+Definition ex3_dyn : list dent :=
+  [(DT_NEEDED, 1); (DT_STRTAB, 0x1000 + 256); (DT_SYMTAB, 0x1000 + 266); (DT_HASH, 0x1000 + 314); (DT_NULL, 0)].
+Definition ex3_syms : list Z :=
+  encode_layout (spec_Elf_Sym true true) [VZ 0; VZ 0; VZ 0; VZ 0; VZ 0; VZ 0; VZ 0; VZ 0; VZ 0] ++
+  encode_layout (spec_Elf_Sym true true) [VZ 6; VZ 1; VZ 2; VZ 0; VZ 0; VZ 0; VZ 5; VZ 0x2000; VZ 16].
+Definition ex3_hash : list Z := encode_layout (spec_Elf_Hash true) [VZ 1; VZ 2; VL [1]; VL [0; 0]].
+Definition ex3_ehdr (shoff shnum : Z) : list Z :=
+  encode_layout (spec_Elf_Ehdr true true)
+    [VB [127; 69; 76; 70]; VZ 2; VZ 1; VZ 1; VZ 0; VZ 0; VB [0;0;0;0;0;0;0]; VZ 3; VZ 62; VZ 1; VZ 0;
+     VZ 64; VZ shoff; VZ 0; VZ 64; VZ 56; VZ 2; VZ 64; VZ shnum; VZ 0].
+Definition ex3_phdrs : list Z :=
+  encode_layout (spec_Elf_Phdr true true) [VZ 1; VZ 5; VZ 0; VZ 0x1000; VZ 0x1000; VZ 590; VZ 590; VZ 4096] ++
+  encode_layout (spec_Elf_Phdr true true) [VZ 2; VZ 6; VZ 176; VZ (0x1000 + 176); VZ (0x1000 + 176); VZ 80; VZ 80; VZ 8].
+Definition ex3_shdrs : list Z :=
+  encode_layout (spec_Elf_Shdr true true) [VZ 0; VZ 0; VZ 0; VZ 0; VZ 0; VZ 0; VZ 0; VZ 0; VZ 0; VZ 0] ++
+  encode_layout (spec_Elf_Shdr true true) [VZ 1; VZ 6; VZ 3; VZ (0x1000 + 176); VZ 176; VZ 80; VZ 2; VZ 0; VZ 8; VZ 16] ++
+  encode_layout (spec_Elf_Shdr true true) [VZ 10; VZ 3; VZ 2; VZ (0x1000 + 256); VZ 256; VZ 10; VZ 0; VZ 0; VZ 1; VZ 0] ++
+  encode_layout (spec_Elf_Shdr true true) [VZ 18; VZ 11; VZ 2; VZ (0x1000 + 266); VZ 266; VZ 48; VZ 2; VZ 1; VZ 8; VZ 24].
+Definition ex3_body := ex3_phdrs ++ encode_dyns true true ex3_dyn ++ ex_strtab ++ ex3_syms ++ ex3_hash ++ ex3_shdrs.
+Definition ex3_img := ex3_ehdr 334 4 ++ ex3_body.
+Definition ex3_img' := ex3_ehdr 0 0 ++ ex3_body.
